@@ -4,6 +4,7 @@ mod canon;
 mod cellmodel;
 mod cellsim;
 mod ddmin;
+mod detalloc;
 mod sched;
 mod corpus;
 mod driver;
@@ -18,6 +19,9 @@ mod selftest;
 mod universe;
 
 use serde_json::Value;
+
+#[global_allocator]
+static GLOBAL: detalloc::DetAlloc = detalloc::DetAlloc;
 
 pub fn replay_other(sim: &str, v: &Value) -> Result<bool, String> {
     driver::confirm_any(sim, v)
